@@ -439,6 +439,10 @@ def _dispatch(task):
         from mc.checks import c12b
 
         return c12b.work(task[1])
+    if task[0] == "tdm1":
+        from mc.checks import c12c
+
+        return c12c.work(task[1])
     return work_strict(task[1]) if task[0] == "strict" else work(task[1])
 
 
@@ -463,6 +467,12 @@ def run(ctx):
     for i in range(0, len(bc), 4):
         tasks.append(("borealis", bc[i : i + 4]))
     ctx.cov["borealis_cases"] = len(bc)
+    from mc.checks import c12c
+
+    tc = c12c.cases(quick)
+    for i in range(0, len(tc), 16):
+        tasks.append(("tdm1", tc[i : i + 16]))
+    ctx.cov["single_loop_tdm_cases"] = len(tc)
     for r in ctx.pmap(_dispatch, tasks):
         ctx.add(r)
         if ctx.time_left() < 0:
@@ -482,6 +492,10 @@ def replay(case):
         from mc.checks import c12b
 
         return c12b.replay(case)
+    if case.get("tdm_single_loop"):
+        from mc.checks import c12c
+
+        return c12c.replay(case)
     if case.get("strict"):
         r = work_strict((case["H"], case["dev"]))
         return [(s, w) for s, w, c in r.viol if c["sq"] == case["sq"] and c["phase"] == case["phase"]]
